@@ -35,7 +35,10 @@ RULE = ('(a) correspondence: generated well-nested histories (with-blocks, excep
         'requests on the root itself, raw puts and put_src(action=reparse) with text that breaks the source, raw puts of '
         'acceptable code that changes the kind of an ancestor (comment-terminated literals etc.), and VALID requests (code of '
         'the right category to every node/field, every operator of its category on operator chains of 2-7 values = multi-site '
-        'edits): whatever raises is judged, valid request or not; plus systematic '
+        'edits; every shape of the small categories - star / dotted / `as` aliases, ** keywords, withitem forms, except* '
+        'handlers, type params, patterns - through the node and through its parent), deletes of every sub-range of every slice '
+        'field incl. the whole range through put_slice(None)/put(None,i,j)/del view[i:j]/get_slice(cut): whatever raises is '
+        'judged, valid request or not; plus systematic '
         'families on the small trees (delete every node and field; every position x every rule-breaking code of every slice '
         'field; every option x junk values (out-of-range ints, wrong types) x every entry-point family - insert/append/prepend/'
         'extend/put/put_slice/delete/get_slice(cut)/replace/remove/cut - on every statement list). Every call that RAISES is judged: src, ast.dump(with positions) of the whole root and the AST<->FST node '
@@ -183,9 +186,9 @@ def _run_sweep(ctx, items):
 
 def sweep(ctx):
     q = ctx.quick
-    progs = _programs(ctx, 230 if q else 3000, 10 if q else 200)
-    items = _items(ctx, progs, 2 if q else 3, 10, 1 if q else 3, 70 if q else 500, 50 if q else 900, 25 if q else 80,
-                   options_cap=160 if q else 800, layouts=2 if q else 4, layout_cap=40 if q else 150)
+    progs = _programs(ctx, 180 if q else 3000, 8 if q else 200)
+    items = _items(ctx, progs, 2 if q else 3, 10, 1 if q else 3, 60 if q else 500, 40 if q else 900, 25 if q else 80,
+                   options_cap=140 if q else 800, layouts=2 if q else 4, layout_cap=20 if q else 150)
     n_raise, n_ok = _run_sweep(ctx, items)
     ctx.notes['raising_calls_judged'] = n_raise
     ctx.notes['non_raising_calls'] = n_ok
